@@ -93,7 +93,7 @@ class Gen:
             ids = [r.choice(["atom", "a b", "Q", "x_1", "q"]) + str(i) for i in range(n)]
         elif r.random() < 0.06:
             ids[r.randrange(n)] = ""  # the empty string is a valid (falsy) qubit id
-        elif rk != "mappable" and r.random() < 0.3:
+        elif rk != "mappable" and r.random() < 0.35:
             # integer ids, as Register.square / from_coordinates produce them (0 is a
             # valid, falsy id); the abstract representation stringifies them in the
             # register only, which the comparison allows for
@@ -457,6 +457,9 @@ class Gen:
                 k = 1 if ch.max_targets == 1 else r.randint(1, min(len(qids), ch.max_targets or len(qids)))
                 sel = r.sample(qids, k)
                 it = r.choice([sel, sel[0], {"tuple": sel}, {"set": sel}]) if k == 1 else r.choice([sel, {"tuple": sel}])
+                falsy = [q for q in qids if not q]
+                if falsy and r.random() < 0.5:
+                    it = falsy[0]  # a valid id that is falsy (0, "")
             return dict(op="declare", name=name, channel_id=cid, initial_target=it, style=r.choice(STYLES))
         kinds = ["add"] * 8 + ["delay"] * 2 + ["target"] * 3 + ["align"] * 2 + ["phase"] * 3 + ["eom"] * 4 + ["dmm"] * 3 + ["slm", "mag", "measure"]
         kind = r.choice(kinds)
